@@ -233,6 +233,16 @@ def run(repo, rep, tier):
         r = [x for x in walk_no_nested(f) if isinstance(x, ast.Return)]
         rep.check('record', 'KexDH.%s returns %s' % (g, want_v), len(r) == 1 and unparse(r[0].value) == want_v, f, 'KexDH.%s returns %s' % (g, unparse(r[0].value) if r else '?'))
 
+    # a probe that gets no reply (the peer closes after the key-exchange request: recv_reply() returns None) presents no key: nothing may be recorded for
+    # that type -- a record with empty bytes is reported with the fingerprint of the empty string
+    for kt_, cert_ in (('ssh-ed25519', False), ('rsa-sha2-512', False), ('ssh-ed25519-cert-v01@openssh.com', True)):
+        ev_n = _hostkey_rating.probe(repo, consts, [(kt_, cert_, 256, '', 0)], no_reply=(kt_,))
+        rep.evals()
+        recs_ = [r_ for r_ in ev_n.get('record_blobs', []) if r_[1] in (b'', None)] if not ev_n['crash'] else []
+        rep.check('record', 'no host key is recorded for %s when the probe got no reply' % kt_, not recs_ and not ev_n['crash'], pt,
+                  'the peer hangs up instead of answering the %s probe (recv_reply() returns None), yet a host key with %s is recorded for %s: the report shows a 0-bit key and the fingerprint of the empty string (SHA256:47DEQpj8HBSa+/TImW+5JCeuQeRkm5NMpJWZG3hSuFU) for a key the peer never presented' % (
+                      kt_, 'empty bytes' if recs_ else 'a crash (%s)' % ev_n['crash'], sorted({r_[0] for r_ in recs_})),
+                  func='hostkeytest:HostKeyTest.perform_test', stmt='host key recorded although the probe got no reply (%s)' % ('certificate' if cert_ else ('RSA family' if kt_.startswith('rsa') else 'plain key')))
     # ---- rule 4: fingerprints --------------------------------------------------------------------------------------------------
     ofp = repo.func('ssh_audit', 'output_fingerprints')
     bs = repo.func('ssh_audit', 'build_struct')
